@@ -36,6 +36,14 @@ PROP = {'rule': 'rapid-generated cases. One case = one LowNodeLoad plugin instan
                  'TestVerifC18Relapse scripts the node levels of three nodes (n0: overloaded with mostly protected pods for N+1 rounds, '
                  'underused for one round, overloaded again; n1: always overloaded; n2: mostly underused) in one pool with absolute '
                  'thresholds, N 2-3, timeout 1h; everything else is generated as in the main test',
+                 'TestVerifC18ProdShared scripts one pool with absolute node-level and prod thresholds and no consecutive-round gating: n0 '
+                 'always overloaded at node level, n1 overloaded at prod level only, n2 underused at both levels without prod load, n3 with '
+                 'prod usage below the prod high threshold but above it together with a non-prod pod that has the NAME of one of its prod '
+                 'pods in another namespace; in this test non-prod pods may generally take the name of a prod pod of another namespace on '
+                 'the node (pods are identified by namespace/name everywhere in the oracle)',
+                 'prod-level receivable load: upper bound = min(sum over nodes possibly below the prod low thresholds of (prod high - prod '
+                 'usage), the part of that sum offered by nodes that are not underused at node level + what the node-level evictions of '
+                 'the round left of the node-level headroom), minus the prod-level evictions so far',
                  'with a stateful evictor filter the verdict at the moment of each Evict call is recomputed from the successful evictions '
                  'recorded so far in the round',
                  'the main unit builds the LowNodeLoad struct with the same filter composition as NewLowNodeLoad but feeds NodeMetrics '
@@ -45,7 +53,8 @@ PROP = {'rule': 'rapid-generated cases. One case = one LowNodeLoad plugin instan
             'files': ['C18/c18_lownodeload_test.go'],
             'tests': [{'run': 'TestVerifC18Balance', 'quick': 2000, 'quick_shards': 2, 'thorough': 8000},
                       {'run': 'TestVerifC18BalanceViaConstructor', 'quick': 40, 'thorough': 150},
-                      {'run': 'TestVerifC18Relapse', 'quick': 1500, 'thorough': 4000}]}],
+                      {'run': 'TestVerifC18Relapse', 'quick': 1500, 'thorough': 4000},
+                      {'run': 'TestVerifC18ProdShared', 'quick': 1500, 'thorough': 4000}]}],
  'manifest': {'technique': 'property-based testing (rapid): generated clusters, threshold settings and multi-round usage histories against '
                            'a recording evictor, with an independent exact-arithmetic oracle per Evict call',
               'text': 'Generated-input / history search: a LowNodeLoad instance is driven through 1-6 successive Balance rounds over '
@@ -54,7 +63,8 @@ PROP = {'rule': 'rapid-generated cases. One case = one LowNodeLoad plugin instan
                       'recomputed in the harness from the inputs: the node has a fresh NodeMetric and its usage minus the metrics of the '
                       'pods already evicted from it in this round is above a high threshold; another schedulable node is below all low '
                       'thresholds; an upper bound of the receivable load of the underused nodes minus what was already evicted is positive '
-                      'in every thresholded resource; with ConsecutiveAbnormalities N>1 the node has a current run of N measured rounds above the '
+                      'in every thresholded resource (at prod level the nodes underused at both levels are shared: what the node-level evictions '
+                      'of the round already sent there no longer counts); with ConsecutiveAbnormalities N>1 the node has a current run of N measured rounds above the '
                       'threshold of that level, and needs a new run after it certainly returned to normal (evicted back under the threshold, '
                       'measured as underused while the balancer was handling an abnormal node, or more than ConsecutiveNormalities normal '
                       'rounds); the pod passes the per-pod evictor verdict, pod selectors, '
